@@ -235,23 +235,25 @@ DeclaredBounds == InLayout => \A j \in DOMAIN kind : Within(decl[j], pos0[j]) /\
 Obs(v) == IF v = -1 THEN INF ELSE v
 ObsMatrix(m, rows) == [p \in Pairs(m) |-> Obs(rows[p[1]][p[2]])]
 WellFormed(m, rows) == Len(rows) = m /\ \A i \in Idx(m) : Len(rows[i]) = m /\ \A j \in Idx(m) : rows[i][j] >= -1
-JudgeSetup(o) ==
+\* `sp` = the shortest-path distances of the observed netlist.  KamadaKawaiTrace passes the value of the
+\* variable `dist` after CliqueStep ; PathsStep on that netlist (= ShortestPaths by the invariant DistIsShortestPath).
+JudgeSetup(o, sp) ==
   IF ~(WellFormed(o.n, o.graph) /\ WellFormed(o.n, o.dist)) THEN [ matrices_are_numbers |-> FALSE ] ELSE
-  LET g == ObsMatrix(o.n, o.graph)  d == ObsMatrix(o.n, o.dist)  sp == ShortestPaths(o.n, o.nets) IN
   [ matrices_are_numbers |-> TRUE,
     \* netlist_to_matrix: "graph[i][j] contains the weight of edge (i, j), or infinity if there is no such edge"
-    graph_symmetric   |-> \A p \in Pairs(o.n) : g[p] = g[<<p[2], p[1]>>],
+    graph_symmetric   |-> \A p \in Pairs(o.n) : o.graph[p[1]][p[2]] = o.graph[p[2]][p[1]],
     graph_edges       |-> \A p \in Pairs(o.n) : p[1] # p[2] =>
-                             /\ (g[p] < INF <=> \E k \in DOMAIN o.nets : Joins(o.nets[k], p[1], p[2]))
-                             /\ (g[p] < INF => \E k \in DOMAIN o.nets : Joins(o.nets[k], p[1], p[2]) /\ g[p] = EdgeLen(o.nets[k])),
+                             LET v == Obs(o.graph[p[1]][p[2]]) IN
+                             /\ (v < INF <=> \E k \in DOMAIN o.nets : Joins(o.nets[k], p[1], p[2]))
+                             /\ (v < INF => \E k \in DOMAIN o.nets : Joins(o.nets[k], p[1], p[2]) /\ v = EdgeLen(o.nets[k])),
     \* get_all_shortest_path_lengths: "dist_mat[i][j] contains the distance of the shortest path between nodes
     \* i and j, or infinity if there is no path"
-    dist_symmetric    |-> \A p \in Pairs(o.n) : d[p] = d[<<p[2], p[1]>>],
-    dist_shortest     |-> \A p \in Pairs(o.n) : p[1] # p[2] => d[p] = sp[p],
-    dist_zero_diagonal |-> \A i \in Idx(o.n) : d[<<i, i>>] = 0,
-    dist_finite_iff_connected |-> \A p \in Pairs(o.n) : p[1] # p[2] => (d[p] < INF <=> sp[p] < INF),
+    dist_symmetric    |-> \A p \in Pairs(o.n) : o.dist[p[1]][p[2]] = o.dist[p[2]][p[1]],
+    dist_shortest     |-> \A p \in Pairs(o.n) : p[1] # p[2] => Obs(o.dist[p[1]][p[2]]) = sp[p],
+    dist_zero_diagonal |-> \A i \in Idx(o.n) : o.dist[i][i] = 0,
+    dist_finite_iff_connected |-> \A p \in Pairs(o.n) : p[1] # p[2] => (o.dist[p[1]][p[2]] # -1 <=> sp[p] < INF),
     \* "graph_diameter ... max value not infinity": the number the ideal edge length is derived from
-    diameter          |-> LargestFinite(o.n, d) = Diameter(o.n, sp) ]
+    diameter          |-> Max({0} \cup { o.dist[p[1]][p[2]] : p \in Pairs(o.n) }) = Diameter(o.n, sp) ]
 \* model conformance: the matrices are exactly what the specification computes for the code as written
 SetupDrift(o) ==
   IF ~(WellFormed(o.n, o.graph) /\ WellFormed(o.n, o.dist)) THEN {} ELSE
@@ -291,6 +293,8 @@ JudgeRun(o) ==
     deterministic   |-> o.bitsA = o.bitsB ]
 \* model conformance: Model declares what the specification says, and the result is within the declared bounds
 RunDrift(o) ==
+  IF Len(o.decl) # Len(o.fx)          \* no Model was built: expected only when nothing is movable
+  THEN (IF \A j \in Mods(o) : o.fx[j] = 1 THEN {} ELSE {"no_model_declared"}) ELSE
   (IF \A j \in Mods(o) : o.decl[j] = Declared(IF o.fx[j] = 1 THEN "fixed" ELSE "soft", o.p0[j], o.W, o.H) THEN {} ELSE {"declaration"})
   \cup (IF o.ret = 1 /\ ~(\A j \in Mods(o) : o.ok[j] = 1 => Within(<<0, o.decl[j][2] - TOL, o.decl[j][3] + TOL, o.decl[j][4] - TOL, o.decl[j][5] + TOL>>, o.fin[j]))
         THEN {"outside_declared_bounds"} ELSE {})
